@@ -190,7 +190,7 @@ func runSortCase(c sortCase) *core.Failure {
 		return runSortSeam(c)
 	}
 	qf := model.BuildShape(c.Frame, c.Shape)
-	in := model.Observe(qf)
+	in := model.ObserveAs(qf, c.Frame)
 	if in.Err {
 		return core.Failf("could not build input frame: %s", in.ErrText)
 	}
